@@ -86,8 +86,8 @@ struct R {   // deterministic expander
 	}
 };
 
-enum Shape { NATURAL, SATURATED, BRANCHY, STORE_L3, SPARSE, FP_HEAVY, RCP_NOOP, MAXLEN, NSHAPES };
-inline const char* shapeName(int s) { static const char* n[] = {"natural", "saturated", "branchy", "store-L3", "sparse", "fp-heavy", "rcp-noop", "max-code-size"}; return n[s]; }
+enum Shape { NATURAL, SATURATED, BRANCHY, STORE_L3, SPARSE, FP_HEAVY, RCP_NOOP, MAXLEN, LONG_BRANCH, NSHAPES };
+inline const char* shapeName(int s) { static const char* n[] = {"natural", "saturated", "branchy", "store-L3", "sparse", "fp-heavy", "rcp-noop", "max-code-size", "long-branch"}; return n[s]; }
 
 struct Override { int pos; Instr ins; };
 
@@ -121,6 +121,27 @@ inline void expand(uint8_t* out, int shape, uint64_t seed, int satType, const st
 		int others = r.below(8);   // 0..7 slots that are not the 32-byte form
 		for (int i = 0; i < N; ++i) { Instr x = r.instr(FDIV_M); x.src = (uint8_t)((x.src & 0xf8) | 4); put(p + 8 * i, x); }
 		for (int j = 0; j < others; ++j) { Instr x = r.chance(50) ? r.instr(CFROUND) : r.instr(FDIV_M); if (typeOf(x.opcode) == FDIV_M && (x.src & 7) == 4) x.src ^= 1; put(p + 8 * r.below(N), x); }
+		break;
+	}
+	case LONG_BRANCH: {
+		// loops with long bodies: writer of d, then a generated number of instructions that modify no integer register (FP ops, stores,
+		// CFROUND) and are no branches, then CBRANCH d - so that branch distances of every size occur (back-ends pick different branch
+		// encodings by distance: rel32 / c.beqz, beq, c.bnez+jal / b.cond) and taken branches re-execute long stretches
+		int i = 0;
+		while (i < N) {
+			uint8_t d = (uint8_t)r.below(8);
+			static const int w[] = {IADD_RS, ISUB_R, IMUL_R, IXOR_R, IROR_R, INEG_R};
+			if (r.chance(80)) { Instr a = r.instr(w[r.below(6)]); a.dst = d; if ((a.src & 7) == d) a.src = (uint8_t)((d + 3) & 7); put(p + 8 * i++, a); }   // else: target is the previous branch / program start
+			static const int lens[] = {0, 1, 3, 6, 12, 20, 36, 37, 40, 50, 72, 73, 80, 120, 200};
+			int L = r.chance(70) ? lens[r.below(15)] : (int)r.below(260);
+			int heavy = r.below(3);   // 0: mixed sizes, 1: FDIV_M (largest encodings), 2: small encodings
+			for (int k = 0; k < L && i < N; ++k) {
+				static const int body[] = {FSWAP_R, FADD_R, FADD_M, FSUB_R, FSUB_M, FSCAL_R, FMUL_R, FDIV_M, FSQRT_R, ISTORE, CFROUND};
+				int t = heavy == 1 ? FDIV_M : heavy == 2 ? (r.chance(50) ? FMUL_R : FSWAP_R) : body[r.below(11)];
+				put(p + 8 * i++, r.instr(t));
+			}
+			if (i < N) { Instr c = r.instr(CBRANCH); c.dst = d; put(p + 8 * i++, c); }
+		}
 		break;
 	}
 	case RCP_NOOP: {
